@@ -22,11 +22,13 @@ fn hs_digest(m: &HandshakeMessage) -> Vec<u64> {
 
 fn call_record(b: &[u8]) -> String {
     let mut buf = Bytes::copy_from_slice(b);
-    match DtlsRecord::decode(&mut buf) { Ok(None) => "ok ".into(), Ok(Some(r)) => format!("ok {}", nats(&rec_digest(&r))), Err(e) => et(&e) }
+    super::start_alloc(); let r = DtlsRecord::decode(&mut buf); super::mark_alloc();
+    match r { Ok(None) => "ok ".into(), Ok(Some(r)) => format!("ok {}", nats(&rec_digest(&r))), Err(e) => et(&e) }
 }
 fn call_hs(b: &[u8]) -> String {
     let mut buf = Bytes::copy_from_slice(b);
-    match HandshakeMessage::decode(&mut buf) { Ok(None) => "ok ".into(), Ok(Some(r)) => format!("ok {}", nats(&hs_digest(&r))), Err(e) => et(&e) }
+    super::start_alloc(); let r = HandshakeMessage::decode(&mut buf); super::mark_alloc();
+    match r { Ok(None) => "ok ".into(), Ok(Some(r)) => format!("ok {}", nats(&hs_digest(&r))), Err(e) => et(&e) }
 }
 fn call_record_walk(b: &[u8]) -> String {
     let mut data = Bytes::copy_from_slice(b);
@@ -54,7 +56,8 @@ fn call_hs_walk(b: &[u8]) -> String {
 }
 fn call_client_hello(b: &[u8]) -> String {
     let mut buf = Bytes::copy_from_slice(b);
-    match ClientHello::decode(&mut buf) {
+    super::start_alloc(); let r = ClientHello::decode(&mut buf); super::mark_alloc();
+    match r {
         Ok(h) => {
             let mut re = BytesMut::new(); h.encode(&mut re);          // re-serialising the parsed hello must be total
             format!("ok {}", nats(&[h.version.major as u64, h.version.minor as u64, h.random.gmt_unix_time as u64, fold(&h.random.random_bytes),
@@ -66,7 +69,8 @@ fn call_client_hello(b: &[u8]) -> String {
 }
 fn call_server_hello(b: &[u8]) -> String {
     let mut buf = Bytes::copy_from_slice(b);
-    match ServerHello::decode(&mut buf) {
+    super::start_alloc(); let r = ServerHello::decode(&mut buf); super::mark_alloc();
+    match r {
         Ok(h) => { let mut re = BytesMut::new(); h.encode(&mut re);
             format!("ok {}", nats(&[h.version.major as u64, h.version.minor as u64, h.random.gmt_unix_time as u64, fold(&h.random.random_bytes),
             h.session_id.len() as u64, fold(&h.session_id), h.cipher_suite as u64, h.compression_method as u64, h.extensions.len() as u64, fold(&h.extensions)])) }
@@ -75,29 +79,34 @@ fn call_server_hello(b: &[u8]) -> String {
 }
 fn call_hvr(b: &[u8]) -> String {
     let mut buf = Bytes::copy_from_slice(b);
-    match HelloVerifyRequest::decode(&mut buf) {
+    super::start_alloc(); let r = HelloVerifyRequest::decode(&mut buf); super::mark_alloc();
+    match r {
         Ok(h) => format!("ok {}", nats(&[h.version.major as u64, h.version.minor as u64, h.cookie.len() as u64, fold(&h.cookie)])), Err(e) => et(&e) }
 }
 fn call_ske(b: &[u8]) -> String {
     let mut buf = Bytes::copy_from_slice(b);
-    match ServerKeyExchange::decode(&mut buf) {
+    super::start_alloc(); let r = ServerKeyExchange::decode(&mut buf); super::mark_alloc();
+    match r {
         Ok(h) => format!("ok {}", nats(&[h.curve_type as u64, h.named_curve as u64, h.public_key.len() as u64, fold(&h.public_key), h.signature.len() as u64, fold(&h.signature)])),
         Err(e) => et(&e) }
 }
 fn call_cert(b: &[u8]) -> String {
     let mut buf = Bytes::copy_from_slice(b);
-    match CertificateMessage::decode(&mut buf) {
+    super::start_alloc(); let r = CertificateMessage::decode(&mut buf); super::mark_alloc();
+    match r {
         Ok(h) => format!("ok {}", nats(&[h.certificates.len() as u64, h.certificates.iter().map(|c| c.len() as u64).sum(),
             h.certificates.iter().fold(7u64, |a, c| (a * 31 + fold(c)) % 4294967296)])),
         Err(e) => et(&e) }
 }
 fn call_cke(b: &[u8]) -> String {
     let mut buf = Bytes::copy_from_slice(b);
-    match ClientKeyExchange::decode(&mut buf) { Ok(h) => format!("ok {}", nats(&[h.public_key.len() as u64, fold(&h.public_key)])), Err(e) => et(&e) }
+    super::start_alloc(); let r = ClientKeyExchange::decode(&mut buf); super::mark_alloc();
+    match r { Ok(h) => format!("ok {}", nats(&[h.public_key.len() as u64, fold(&h.public_key)])), Err(e) => et(&e) }
 }
 fn call_finished(b: &[u8]) -> String {
     let mut buf = Bytes::copy_from_slice(b);
-    match Finished::decode(&mut buf) { Ok(h) => format!("ok {}", nats(&[h.verify_data.len() as u64, fold(&h.verify_data)])), Err(e) => et(&e) }
+    super::start_alloc(); let r = Finished::decode(&mut buf); super::mark_alloc();
+    match r { Ok(h) => format!("ok {}", nats(&[h.verify_data.len() as u64, fold(&h.verify_data)])), Err(e) => et(&e) }
 }
 
 // ---- generators from the repo's own encoders
@@ -220,16 +229,16 @@ pub fn gen_records(rng: &mut Rng) -> Vec<u8> {
 
 pub fn targets() -> Vec<Target> {
     vec![
-        Target { stream: "dtlsrec", entry: "DtlsRecord::decode", call: call_record, valid: gen_records, alloc: Some((1, 64)), weight: 2 },
-        Target { stream: "dtlshs", entry: "HandshakeMessage::decode", call: call_hs, valid: gen_handshake_msgs, alloc: Some((1, 64)), weight: 2 },
-        Target { stream: "dtlsrecwalk", entry: "DtlsRecord::decode(walk)", call: call_record_walk, valid: gen_records, alloc: Some((8, 256)), weight: 1 },
-        Target { stream: "dtlshswalk", entry: "HandshakeMessage::decode(walk)", call: call_hs_walk, valid: gen_handshake_msgs, alloc: Some((8, 256)), weight: 1 },
-        Target { stream: "chello", entry: "ClientHello::decode", call: call_client_hello, valid: gen_client_hello, alloc: Some((4, 256)), weight: 3 },
-        Target { stream: "shello", entry: "ServerHello::decode", call: call_server_hello, valid: gen_server_hello, alloc: Some((4, 256)), weight: 2 },
-        Target { stream: "hvr", entry: "HelloVerifyRequest::decode", call: call_hvr, valid: gen_hvr, alloc: Some((2, 64)), weight: 1 },
-        Target { stream: "ske", entry: "ServerKeyExchange::decode", call: call_ske, valid: gen_ske, alloc: Some((2, 64)), weight: 1 },
-        Target { stream: "cert", entry: "CertificateMessage::decode", call: call_cert, valid: gen_cert, alloc: Some((9, 64)), weight: 2 },
-        Target { stream: "cke", entry: "ClientKeyExchange::decode", call: call_cke, valid: gen_cke, alloc: Some((2, 64)), weight: 1 },
-        Target { stream: "finished", entry: "Finished::decode", call: call_finished, valid: gen_finished, alloc: Some((2, 64)), weight: 1 },
+        Target { stream: "dtlsrec", entry: "DtlsRecord::decode", call: call_record, valid: gen_records, alloc: Some((0, 0)), weight: 2 },
+        Target { stream: "dtlshs", entry: "HandshakeMessage::decode", call: call_hs, valid: gen_handshake_msgs, alloc: Some((0, 0)), weight: 2 },
+        Target { stream: "dtlsrecwalk", entry: "DtlsRecord::decode(walk)", call: call_record_walk, valid: gen_records, alloc: None, weight: 1 },
+        Target { stream: "dtlshswalk", entry: "HandshakeMessage::decode(walk)", call: call_hs_walk, valid: gen_handshake_msgs, alloc: None, weight: 1 },
+        Target { stream: "chello", entry: "ClientHello::decode", call: call_client_hello, valid: gen_client_hello, alloc: Some((1, 0)), weight: 3 },
+        Target { stream: "shello", entry: "ServerHello::decode", call: call_server_hello, valid: gen_server_hello, alloc: Some((1, 0)), weight: 2 },
+        Target { stream: "hvr", entry: "HelloVerifyRequest::decode", call: call_hvr, valid: gen_hvr, alloc: Some((1, 0)), weight: 1 },
+        Target { stream: "ske", entry: "ServerKeyExchange::decode", call: call_ske, valid: gen_ske, alloc: Some((1, 0)), weight: 1 },
+        Target { stream: "cert", entry: "CertificateMessage::decode", call: call_cert, valid: gen_cert, alloc: Some((8, 0)), weight: 2 },
+        Target { stream: "cke", entry: "ClientKeyExchange::decode", call: call_cke, valid: gen_cke, alloc: Some((1, 0)), weight: 1 },
+        Target { stream: "finished", entry: "Finished::decode", call: call_finished, valid: gen_finished, alloc: Some((1, 0)), weight: 1 },
     ]
 }
